@@ -31,7 +31,7 @@ rm -f "bin/build.$$.log"
 # does not handle) the phase is skipped and the check says so; it is never an alarm.
 fbin=""
 case "$prop" in
-  C05|C06|C16|C20)
+  C05|C06|C13|C14|C16|C20)
     fbin="$PWD/bin/simcheck-f.$$"
     if ! ../tools/build_f.sh "$fbin" > "bin/buildf.$$.log" 2>&1; then
       echo "engine F build not available:"; sed 's/^/  /' "bin/buildf.$$.log" | tail -15
